@@ -124,6 +124,8 @@ class Lay:
         return relayout(arr, mode)
 
 
+# integer dtypes that hold 7 digits or more: (fewest, most) digits of the values generated
+BIG_DIGITS = {'i4': (7, 9), 'u4': (7, 9), 'i8': (7, 18)}
 VALUE_DTYPES = ['f4', 'f2', 'g', 'f8', 'i1', 'i2', 'i4', 'i8', 'u1', 'u4', 'b1']
 ERROR_DTYPES = ['f8', 'f4', 'f2', 'g']
 
@@ -144,7 +146,7 @@ def _dataset(shape, value, error, kinds, name, lay=None, dtypes=(None, None)):
             bins[f'x{k}'] = np.arange(n + 1, dtype=float) * (k + 1)
         else:
             bins[f'x{k}'] = np.arange(n, dtype=float) * (k + 1) + 0.5
-    return Dataset(lay(np.array(value, dtype=float).astype(vdt or 'f8').reshape(shape)),
+    return Dataset(lay(np.array(value).astype(vdt or 'f8').reshape(shape)),   # Python ints stay exact
                    lay(np.array(error, dtype=float).astype(edt or 'f8').reshape(shape)), bins=bins, name=name)
 
 
@@ -186,7 +188,10 @@ def build_data_test(case, rot=0):
     if vdt == 'b1' and kind == 'student':
         vdt, integral = 'i1', True           # numpy has no boolean subtraction
     # values with a fractional part for the inexact types (so that the number format matters)
-    refv = [(i % 2 if vdt == 'b1' else 10.0 + i) if integral else 10.0 + i + (1.0 / 30 if vdt else 0.0)
+    base = int(case.get('base', 10))          # integer dtypes: values of up to 18 digits, exact
+    if integral and kind == 'student':
+        base = min(base, 10 ** 8)             # the statistic is computed in floating point
+    refv = [(i % 2 if vdt == 'b1' else base + i) if integral else 10.0 + i + (1.0 / 30 if vdt else 0.0)
             for i in range(nbin)]
     refe = [0.5 + 0.25 * (i % 3) for i in range(nbin)]
     lay = Lay(case.get('lay'))
@@ -202,6 +207,8 @@ def build_data_test(case, rot=0):
             if kind in ('equal', 'approx'):
                 if vdt == 'b1':
                     vals.append(refv[i] != bool(fails[i]))
+                elif integral:
+                    vals.append(refv[i] + (1 + k if fails[i] else 0))      # differs in the low digits only
                 else:
                     vals.append(refv[i] + (1.0 + k if fails[i] else 0.0))
             else:
@@ -212,7 +219,8 @@ def build_data_test(case, rot=0):
                 sign = -1.0 if (i + k) % 2 else 1.0
                 if lev == 3 and integral:
                     lev, tval = 1, 6.0       # no NaN in an integer column
-                vals.append(float('nan') if lev == 3 else refv[i] + sign * tval * sig)
+                val = float('nan') if lev == 3 else refv[i] + sign * tval * sig
+                vals.append(int(round(val)) if integral else val)
             errs.append(err)
         dsets.append(_dataset(shape, vals, errs, kinds, f'ds{k}', lay, (vdt, edt)))
     name = case.get('name', 'the test')
@@ -644,6 +652,8 @@ def run_case(case):
         return run_strtable(rec, case)
     if kind == 'history':
         return run_history(rec, case)
+    if kind == 'policy':
+        return run_policy(rec, case)
     intern = Intern()
     result = build_result(case)
     verdict = bool(result)
@@ -738,6 +748,27 @@ def run_case(case):
                     if body != want:
                         rec.fail(f'{where}: rows shown {body[:2]}.. are not the '
                                  f'{"failing " if interm else ""}bins {want[:2]}..', 'rows-not-failing-bins')
+                    # equality tests: in a failing row the two compared values are shown as different
+                    # texts; integer values read back exactly (every digit)
+                    nlab = len(label_columns(res.test.dsref))
+                    step = 4 if kind == 'student' else 2
+                    first = nlab + (2 if kind == 'student' else 1)
+                    for irow, row in enumerate(body):
+                        ibin = failing[irow] if interm and irow < len(failing) else irow
+                        for k, dset in enumerate(res.test.datasets):
+                            pos = first + step * k
+                            if pos + step - 1 >= len(row) or ibin >= res.test.dsref.size:
+                                continue
+                            flagged = row[pos + step - 1][1] is True
+                            if kind == 'equal' and flagged and row[pos][0] == row[nlab][0]:
+                                rec.fail(f'{where}: row {irow} is highlighted as unequal but shows the same text '
+                                         f'{row[pos][0]!r} for the reference and for {dset.name}',
+                                         'failing-row-shows-equal-values')
+                            for arr, cell in ((res.test.dsref.value, row[nlab]), (dset.value, row[pos])):
+                                stored = flat(arr)[ibin]
+                                if isinstance(stored, np.integer) and cell[0] != str(int(stored)):
+                                    rec.fail(f'{where}: integer value {int(stored)} is written as {cell[0]!r}',
+                                             'integer-cell-not-exact')
                     hl_rows = [i for i, row in enumerate(body) if any(c[1] for c in row)]
                     want_hl = list(range(len(failing))) if interm else failing
                     if hl_rows != want_hl:
@@ -884,6 +915,165 @@ def run_history(rec, case):
             rec.extra_renders.append(probe.renders)
         rec.nontrivial = rec.nontrivial or probe.nontrivial
     return rec
+
+
+# --------------------------------------------------------------------------
+# callable verbosity: one representation object used for a sequence of results
+
+def policy_level(policy, result):
+    '''the level a verbosity policy (JSON description) gives to a result'''
+    if policy['by'] == 'verdict':
+        return policy['levels'][0 if bool(result) else 1]
+    key = type(result).__name__ if policy['by'] == 'kind' else result.test.name
+    return policy['map'].get(key, policy['default'])
+
+
+def canon_templates(templates):
+    from valjean.javert.templates import TableTemplate, TextTemplate
+    out = []
+    for tmpl in templates:
+        if isinstance(tmpl, TextTemplate):
+            out.append(['text', tmpl.text])
+        elif isinstance(tmpl, TableTemplate):
+            cols, mask = table_obs(tmpl)
+            out.append(['table', list(tmpl.headers), cols, mask])
+        else:
+            out.append([type(tmpl).__name__])
+    return out
+
+
+def canon_marked(canon):
+    return any((c[0] == 'text' and ':hl:`' in c[1]) or (c[0] == 'table' and any(any(m) for m in c[3]))
+               for c in canon)
+
+
+def run_policy(rec, case):
+    '''A Representation (and an Rst) built with a *callable* verbosity renders a sequence of results
+    whose levels differ: every rendering must equal the one obtained with the constant level the
+    callable returns for that result (through the representation, Rst.format_result and
+    Rst.format_report), carry a mark iff the result is false whenever that level is not silent, and
+    agree with the model.'''
+    from valjean.javert.representation import Representation
+    from valjean.javert.rst import Rst
+    from valjean.javert.templates import TableTemplate, TextTemplate
+    from valjean.javert.test_report import TestReport
+    from valjean.javert.verbosity import Verbosity
+    rec.count('kind_policy')
+    policy = case['policy']
+    rec.count('policy_by_' + policy['by'])
+    subs = case['subs']
+
+    def chooser(result):
+        return Verbosity[policy_level(policy, result)]
+    levels = [policy_level(policy, build_result(sub)) for sub in subs]
+    if len(set(levels)) > 1:
+        rec.count('policy_sequences_with_different_levels')
+    interns = [Intern() for _ in subs]
+    abstracts = [abstract_result(sub, build_result(sub), interns[k]) for k, sub in enumerate(subs)]
+    renders = [[] for _ in subs]
+    for rep in case.get('reps', REPS):
+        shared = Representation(representer(rep), verbosity=chooser)        # one object for the sequence
+        shared_rst = Rst(representation=Representation(representer(rep), verbosity=chooser))
+        want_report = []
+        usable = True
+        for k, (sub, level) in enumerate(zip(subs, levels)):
+            where = f'{rep}, result {k} of the sequence ({sub["kind"]}, level {level} by the policy)'
+            const = Verbosity[level]
+            try:
+                got = canon_templates(shared(build_result(sub)))
+                want = canon_templates(Representation(representer(rep), verbosity=const)(build_result(sub)))
+                got_lines = shared_rst.format_result(build_result(sub))
+                want_lines = Rst(representation=Representation(representer(rep), verbosity=const)) \
+                    .format_result(build_result(sub))
+            except Exception as exc:  # noqa
+                if rep == 'Full':
+                    rec.count('full_representer_plot_error')
+                    usable = False
+                    continue
+                rec.fail(f'{where}: rendering raises {type(exc).__name__}', 'policy-render-raises')
+                usable = False
+                continue
+            rec.count('policy_renderings')
+            result = build_result(sub)
+            verdict = bool(result)
+            if got != want:
+                rec.fail(f'{where}: the rendering is not the one of the constant level {level} '
+                         f'(got {json.dumps(got)[:300]}, want {json.dumps(want)[:300]})', 'policy-level-not-applied')
+            known = sub['kind'] in CORR_KINDS and rep != 'Table' and verdict \
+                and not bool(result.first_test_res)
+            if level != 'SILENT' and canon_marked(got) != (not verdict) and not known:
+                rec.fail(f'{where}: {"a" if canon_marked(got) else "no"} mark although the result is {verdict}',
+                         'policy-mark-on-true' if verdict else 'policy-no-mark-on-false')
+            # the text: anchor and description (3 lines) then the templates; the file names of the
+            # plots (fingerprints of PlotTemplates, not part of C12) are left out
+            got_lines = [ln for ln in got_lines if not ln.startswith('.. image::')]
+            want_lines = [ln for ln in want_lines if not ln.startswith('.. image::')]
+            if got_lines[3:] != want_lines[3:]:
+                rec.fail(f'{where}: Rst.format_result does not write what it writes at the constant level {level}',
+                         'policy-format-result')
+            elif level != 'SILENT' and want_lines and not known:
+                marks = doc_marks(parse_rst('\n'.join(got_lines))[0])
+                if bool(marks) != (not verdict):
+                    rec.fail(f'{where}: text of Rst.format_result: marks {marks[:2]} although the result is {verdict}',
+                             'policy-text-marks')
+            want_report.append(want_lines[3:])
+            # the model at that level
+            tts = [t for t in shared_tts(rep, const, sub)]
+            renders[k].append(f'({COQ_REP[rep]}, {COQ_VERB[VERBS.index(level)]}, '
+                              f'{coq_templates(tts, interns[k], policy_joins(sub, interns[k]))})')
+        # the same sequence as the content of a report
+        if usable:
+            try:
+                rst = Rst(representation=Representation(representer(rep), verbosity=chooser))
+                rst.format_report(report=TestReport(title='Sequence', text='intro',
+                                                    content=[build_result(sub) for sub in subs]),
+                                  author='a', version='1')
+                page = [ln for ln in rst.text_dict[()] if not ln.startswith('.. image::')]
+            except Exception as exc:  # noqa
+                rec.fail(f'{rep}: Rst.format_report raises {type(exc).__name__}', 'policy-report-raises')
+                continue
+            pos = 0
+            for k, body in enumerate(want_report):
+                # every result's templates appear, in order, as written at its own level
+                found = None
+                for start in range(pos, len(page) - len(body) + 1):
+                    if page[start:start + len(body)] == body:
+                        found = start
+                        break
+                if body and found is None:
+                    rec.fail(f'{rep}: Rst.format_report does not write result {k} of the sequence as at the level '
+                             f'{levels[k]} its policy gives', 'policy-format-report')
+                    break
+                pos = (found or pos) + len(body)
+            marks = doc_marks(parse_rst('\n'.join(page))[0])
+            expected = sum(len(doc_marks(parse_rst('\n'.join(body))[0])) for body in want_report if body)
+            if len(marks) != expected:
+                rec.fail(f'{rep}: the page of Rst.format_report carries {len(marks)} marks, the results rendered at '
+                         f'their own levels carry {expected}', 'policy-report-marks')
+    for k, sub in enumerate(subs):
+        if renders[k]:
+            rec.extra_renders.append(f'({abstracts[k]}, {clist(renders[k])})')
+    rec.nontrivial = len(set(levels)) > 1
+    return rec
+
+
+def shared_tts(rep, level, sub):
+    '''text and table templates of a constant-level rendering (what the model is compared with; the
+    callable rendering was compared with it as canonical data above)'''
+    from valjean.javert.representation import Representation
+    from valjean.javert.templates import TableTemplate, TextTemplate
+    return [t for t in Representation(representer(rep), verbosity=level)(build_result(sub))
+            if isinstance(t, (TableTemplate, TextTemplate))]
+
+
+def policy_joins(sub, intern):
+    joins = {}
+    if sub['kind'] == 'meta':
+        result = build_result(sub)
+        bad = [key for key, val in result.dict_res.items() if not all(val.values())]
+        if len(bad) != 1:
+            joins[', '.join(bad)] = 'CJoin ' + clist([cn(intern(k)) for k in bad])
+    return joins
 
 
 def tt_coq(headers_ids, shape, cols, mask, intern):
@@ -1110,6 +1300,10 @@ def gen_data_case(rng, kind, big=False):
                 case['dtype'] = 'f4'
             if case.get('edtype') == 'g':
                 case['edtype'] = 'f2'
+        if case['dtype'] in BIG_DIGITS and rng.random() < 0.7:
+            lo, hi = BIG_DIGITS[case['dtype']]
+            digits = rng.randint(lo, hi)
+            case['base'] = rng.randint(10 ** (digits - 1), 10 ** digits - 200)
         if case['dtype'][0] in 'iub':
             case['fail'] = [[min(lev, 2) if lev != 3 else 1 for lev in row] for row in case['fail']]
     # memory layouts of the arrays handed to the code (values, errors; arrays of the result object)
@@ -1216,6 +1410,10 @@ def gen_col_case(rng):
         elif code[0] == 'f' or code == 'g':
             vals = [rng.choice([0.0, 1.0, 1 / 30, 1 / 3, 12345.678, 2.5e-7, 65000.0, -0.1, float('nan'), float('inf')])
                     for _ in range(nrow)]
+        elif code in ('i4', 'i8', 'u4', 'u8') and rng.random() < 0.6:
+            top = {'i4': 9, 'u4': 9, 'i8': 18, 'u8': 19}[code]
+            start = rng.randint(10 ** 6, 10 ** rng.randint(7, top) - 10)     # 7 .. top digits, low digits differ
+            vals = [start + rng.randint(0, 3) for _ in range(nrow)]
         elif code[0] == 'i':
             vals = [rng.randint(-100, 100) for _ in range(nrow)]
         elif code[0] == 'u':
@@ -1225,8 +1423,8 @@ def gen_col_case(rng):
         elif code == 'U':
             vals = [rng.choice(SAFE_WORDS) for _ in range(nrow)]
         else:   # Python list of Python scalars of one sort, or ints and floats mixed
-            sort = rng.choice(['int', 'float', 'bool', 'str', 'mixed'])
-            vals = [{'int': rng.randint(-5, 5), 'float': rng.choice([1 / 3, 2.0, 1e-9]), 'bool': rng.random() < 0.5,
+            sort = rng.choice(['int', 'bigint', 'float', 'bool', 'str', 'mixed'])
+            vals = [{'int': rng.randint(-5, 5), 'bigint': 12345678 + rng.randint(0, 3) * 10 ** rng.randint(0, 9), 'float': rng.choice([1 / 3, 2.0, 1e-9]), 'bool': rng.random() < 0.5,
                      'str': rng.choice(SAFE_WORDS),
                      'mixed': rng.choice([1, 2.5, 7, 1 / 3])}[sort] for _ in range(nrow)]
         columns.append([code, vals])
@@ -1276,6 +1474,36 @@ CORPUS = [
                  ['i1', [-5, 100]], ['b1', [True, False]], ['c16', [[1 / 3, 2.0], [0.0, -1 / 7]]], ['list', [1, 2.5]]],
      'mask': [[False, False], [True, False], [False, True], [False, False], [False, True], [True, False],
               [False, False], [False, True]]},
+    # integer quantities of 7-18 digits that differ in the low digits only
+    {'kind': 'equal', 'shape': [3], 'bins': ['e'], 'fail': [[0, 1, 0]], 'dtype': 'i8', 'base': 12345678,
+     'ops': [['get', [[1, None]]], ['join', [0]]]},
+    {'kind': 'equal', 'shape': [2, 2], 'bins': ['e', 'c'], 'fail': [[0, 0, 1, 0], [1, 0, 0, 0]], 'dtype': 'i8',
+     'base': 123456789012345678, 'lay': 'F'},
+    {'kind': 'approx', 'shape': [2], 'bins': ['c'], 'fail': [[1, 0]], 'dtype': 'u4', 'base': 4000000000},
+    {'kind': 'student', 'shape': [3], 'bins': ['e'], 'fail': [[0, 1, 0]], 'ndf': 20, 'dtype': 'i4', 'base': 20000000},
+    {'kind': 'equal', 'shape': [], 'bins': [], 'fail': [[1]], 'dtype': 'i8', 'base': 98765432101},
+    {'kind': 'coltable', 'headers': ['n', 'i8', 'u8', 'list'], 'safe': True,
+     'columns': [['U', ['a', 'b']], ['i8', [12345678, 12345679]], ['u8', [18000000000000000001, 7]],
+                 ['list', [1000000, 123456789012]]],
+     'mask': [[False, False], [False, True], [False, False], [True, False]]},
+    # callable verbosity: one representation for a sequence of results of different levels
+    {'kind': 'policy', 'policy': {'by': 'verdict', 'levels': ['SILENT', 'FULL_DETAILS']}, 'subs': [
+        {'kind': 'student', 'shape': [3], 'bins': ['e'], 'fail': [[0, 0, 0]], 'ndf': None},
+        {'kind': 'student', 'shape': [3], 'bins': ['e'], 'fail': [[0, 1, 0]], 'ndf': None},
+        {'kind': 'equal', 'shape': [2], 'bins': ['c'], 'fail': [[1, 0]]}]},
+    {'kind': 'policy', 'policy': {'by': 'verdict', 'levels': ['DEVELOPMENT', 'SUMMARY']}, 'subs': [
+        {'kind': 'equal', 'shape': [2], 'bins': ['c'], 'fail': [[1, 0]]},
+        {'kind': 'equal', 'shape': [2], 'bins': ['c'], 'fail': [[0, 0]]},
+        {'kind': 'meta', 'values': [['v0'], ['w0']]}, {'kind': 'tasks', 'counts': [['DONE', 2]]}]},
+    {'kind': 'policy', 'policy': {'by': 'kind', 'default': 'SUMMARY',
+                                  'map': {'TestResultStudent': 'INTERMEDIATE', 'TestResultMetadata': 'SILENT'}},
+     'subs': [{'kind': 'meta', 'values': [['v0'], ['w0']]},
+              {'kind': 'student', 'shape': [3], 'bins': ['e'], 'fail': [[0, 1, 0]], 'ndf': 20},
+              {'kind': 'holm', 'shape': [3], 'bins': ['e'], 'fail': [[0, 1, 0]], 'ndf': 20}]},
+    {'kind': 'policy', 'policy': {'by': 'name', 'default': 'DEFAULT', 'map': {'first': 'SILENT', 'second': 'FULL_DETAILS'}},
+     'subs': [{'kind': 'approx', 'shape': [2], 'bins': ['e'], 'fail': [[0, 0]], 'name': 'first'},
+              {'kind': 'approx', 'shape': [2], 'bins': ['e'], 'fail': [[0, 1]], 'name': 'second'},
+              {'kind': 'bylabels', 'nlab': 1, 'rows': [[['a'], 1, 1, 2]], 'missing': 0}]},
     # histories: earlier renderings modified in place by their holder, then the same kinds again
     {'kind': 'history', 'mut': 'join', 'subs': [
         {'kind': 'student', 'shape': [3], 'bins': ['e'], 'fail': [[0, 0, 0]], 'ndf': None},
@@ -1340,11 +1568,42 @@ def gen_history_case(rng):
     return {'kind': 'history', 'subs': subs, 'mut': rng.choice(['mark', 'unmark', 'join'])}
 
 
+RESULT_CLASSES = {'equal': 'TestResultEqual', 'approx': 'TestResultApproxEqual', 'student': 'TestResultStudent',
+                  'bonf': 'TestResultBonferroni', 'holm': 'TestResultHolmBonferroni', 'meta': 'TestResultMetadata',
+                  'tasks': 'TestResultStatsTasks', 'tests': 'TestResultStatsTests',
+                  'bylabels': 'TestResultStatsTestsByLabels', 'failed': 'TestResultFailed'}
+
+
+def gen_policy_case(rng):
+    '''a sequence of results (both outcomes, possibly several kinds) and a verbosity policy that is a
+    function of the result: by verdict, by kind (class of the result) or by test name'''
+    subs = list(gen_history_case(rng)['subs'])
+    if rng.random() < 0.5:
+        subs += gen_history_case(rng)['subs'][:2]
+    for k, sub in enumerate(subs):
+        if sub['kind'] in DATA_KINDS:
+            sub['name'] = f'test {k}'
+    rng.shuffle(subs)
+    subs = subs[:5]
+    by = rng.choice(['verdict', 'verdict', 'kind', 'name'])
+    if by == 'verdict':
+        levels = rng.sample(VERBS, 2)
+        policy = {'by': 'verdict', 'levels': levels}
+    elif by == 'kind':
+        kinds = sorted({sub['kind'] for sub in subs})
+        policy = {'by': 'kind', 'default': rng.choice(VERBS),
+                  'map': {RESULT_CLASSES[k]: rng.choice(VERBS) for k in kinds if rng.random() < 0.8}}
+    else:
+        policy = {'by': 'name', 'default': rng.choice(VERBS),
+                  'map': {sub['name']: rng.choice(VERBS) for sub in subs if 'name' in sub}}
+    return {'kind': 'policy', 'subs': subs, 'policy': policy}
+
+
 def gen_cases(ctx):
     rng = ctx.rng
     quick = ctx.tier == 'quick'
     cases = [dict(c) for c in CORPUS]
-    nres = 150 if quick else 3000
+    nres = 120 if quick else 3000
     kinds = ['equal', 'approx', 'student', 'student', 'bonf', 'holm', 'meta', 'tasks', 'tests', 'bylabels']
     for i in range(nres):
         kind = kinds[i % len(kinds)]
@@ -1357,12 +1616,14 @@ def gen_cases(ctx):
         else:
             case = gen_labels_case(rng)
         cases.append(case)
-    for i in range(80 if quick else 1500):
+    for i in range(60 if quick else 1500):
         cases.append(gen_str_case(rng, safe=i % 2 == 0))
-    for i in range(40 if quick else 800):
+    for i in range(30 if quick else 800):
         cases.append(gen_col_case(rng))
-    for i in range(24 if quick else 300):
+    for i in range(16 if quick else 300):
         cases.append(gen_history_case(rng))
+    for i in range(14 if quick else 250):
+        cases.append(gen_policy_case(rng))
     return cases
 
 
@@ -1460,7 +1721,7 @@ def replay(ctx, path):
         case = case['case']
     rec = run_case(case)
     print('case:', json.dumps(case))
-    if case['kind'] not in ('strtable', 'coltable', 'history'):
+    if case['kind'] not in ('strtable', 'coltable', 'history', 'policy'):
         from valjean.javert.representation import Representation
         from valjean.javert.rst import Rst
         from valjean.javert.verbosity import Verbosity
